@@ -134,6 +134,9 @@ type c07Spec struct {
 	Skip0       interface{}   `json:"skipable_column0"` // nil unset
 	Skip        []interface{} `json:"skipable_columns"` // per column 1..n, nil unset
 	SetClear    bool          `json:"set_then_cleared"`
+	Staged      bool          `json:"staged_wrapper_reused"`
+	StageAt     int           `json:"first_render_after_rows"`
+	PreSkip     []interface{} `json:"skipable_at_first_render_column0_then_columns"`
 }
 
 func (s *c07Spec) ncols() int {
@@ -147,6 +150,76 @@ func (s *c07Spec) ncols() int {
 		}
 	}
 	return n
+}
+
+// render builds the table and renders it: either in one go through a fresh wrapper, or (staged) through
+// a wrapper created first, which renders the partial table under other skipable settings before the
+// table is completed and the final settings (with withdrawals) are put in force.
+func (s *c07Spec) render() (string, error) {
+	if !s.Staged {
+		return json.Wrap(s.build()).Render()
+	}
+	t := tabular.New()
+	jw := json.Wrap(t)
+	if s.HasHeader {
+		t.AddHeaders(s.headerItems()...)
+	}
+	addRows := func(from, to int) {
+		for i := from; i < to && i < len(s.Rows); i++ {
+			if s.Sep[i] {
+				t.AddSeparator()
+				continue
+			}
+			items := make([]interface{}, len(s.Rows[i]))
+			for j := range s.Rows[i] {
+				items[j] = s.Rows[i][j].item
+			}
+			t.AddRowItems(items...)
+		}
+	}
+	addRows(0, s.StageAt)
+	for n, v := range s.PreSkip {
+		if v != nil && n <= t.NColumns() {
+			t.Column(n).SetProperty(properties.Skipable, v)
+		}
+	}
+	jw.Render()
+	addRows(s.StageAt, len(s.Rows))
+	jw.Render()
+	for n := 0; n <= t.NColumns(); n++ {
+		var v interface{}
+		if n == 0 {
+			v = s.Skip0
+		} else if n-1 < len(s.Skip) {
+			v = s.Skip[n-1]
+		}
+		t.Column(n).SetProperty(properties.Skipable, v) // nil withdraws what the first render saw
+	}
+	return jw.Render()
+}
+
+func (s *c07Spec) headerItems() []interface{} {
+	hs := make([]interface{}, len(s.Header))
+	for i := range hs {
+		txt := string(s.Header[i])
+		kind := 0
+		if i < len(s.HeaderKinds) {
+			kind = s.HeaderKinds[i]
+		}
+		switch kind {
+		case 1:
+			hs[i] = gen.VS_0{S: txt}
+		case 2:
+			hs[i] = &gen.PGE_0{G: txt, E: "<wrong: Error>"}
+		case 3:
+			hs[i] = tabular.NewCell(txt)
+		case 4:
+			hs[i] = errors.New(txt)
+		default:
+			hs[i] = txt
+		}
+	}
+	return hs
 }
 
 func (s *c07Spec) build() *tabular.ATable {
@@ -343,8 +416,10 @@ func c07SameJSON(a, b []byte) bool {
 
 func c07Check(c *Ctx, s *c07Spec, sigExtra string, sample bool) {
 	c.Case = s
-	t := s.build()
-	out, err := json.Wrap(t).Render()
+	out, err := s.render()
+	if s.Staged {
+		c.Rec.Count("staged_cases(render, change, render again through the same wrapper)", 1)
+	}
 	want := s.expectError()
 	seps := 0
 	for _, b := range s.Sep {
@@ -569,6 +644,13 @@ func c07Random(c *Ctx, i int, r *gen.R) {
 		// header that is not valid UTF-8: no-panic only
 		s.Header[r.Intn(n)] = gen.Q("bad\xff" + r.Word())
 	}
+	if r.Chance(1, 2) {
+		s.Staged, s.StageAt = true, r.Range(0, len(s.Rows))
+		s.PreSkip = make([]interface{}, n+1)
+		for k := range s.PreSkip {
+			s.PreSkip[k] = skipv()
+		}
+	}
 	c07Check(c, s, "", true)
 }
 
@@ -621,6 +703,10 @@ func c07Skipables(c *Ctx, i int, r *gen.R) {
 	}
 	s.Rows = [][]c07Item{{x("1"), x("2"), x("3")}, {e(), x("2"), nl()}, {nl(), e(), es()}, {x("1")}, {}, {e(), e()}, nil, {x("z"), nl(), e()}}
 	s.Sep = []bool{false, false, false, false, false, false, true, false}
+	if i%2 == 1 {
+		s.Staged, s.StageAt = true, i%5
+		s.PreSkip = []interface{}{vals[(i/2)%3], vals[(i/5)%3], vals[(i/7)%3], vals[(i/11)%3]}
+	}
 	c07Check(c, s, fmt.Sprintf("skip-%d", i), i%30 == 2)
 }
 
